@@ -11,7 +11,7 @@ from ..core.refmodels import ref_dominance, ref_ranks
 PROPERTY = "C02"
 LEVEL = "exploration"
 RULE = ("every sequence of length n over the alphabet (all input orders): quick V3^2 x {F,T} n<=4, V3 x {F,T} n<=6, "
-        "{0,1}^3 x {T} n<=5; thorough adds V5^2 x {T} n<=5 and V3^2 x {F,T} n=5. also every permutation of the creation (id) order for n=3 (all) and n=4 over a 6-symbol alphabet. Oracle: rank by the recursive "
+        "{0,1}^3 x {T} n<=5; thorough adds V5^2 x {T} n<=5 and V3^2 x {F,T} n=5. populations of 6-7 (thorough 8-9) over a 2x2 grid and over a 4-symbol one-objective alphabet; also every permutation of the creation (id) order for n=3 (all) and n=4 over a 6-symbol alphabet. Oracle: rank by the recursive "
         "definition. distinct_nontrivial = number of distinct labelled dominance relations (verdict matrices) realised "
         "that contain at least one dominance pair; evaluations = sequences sorted.")
 ASSUMPTIONS = ["the sorter sees costs only through the comparator verdicts (C01 checks the comparator)",
@@ -29,6 +29,10 @@ def alphabet(name):
         return [(a, f) for a in V3 for f in (False, True)]
     if name == "B3":
         return [(a, b, c, True) for a in (0.0, 1.0) for b in (0.0, 1.0) for c in (0.0, 1.0)]
+    if name == "Q4":      # 2x2 grid: chains, ties and incomparable pairs
+        return [(0.0, 0.0, True), (0.0, 1.0, True), (1.0, 0.0, True), (1.0, 1.0, True)]
+    if name == "L3F":     # one objective, three values, both markers: long chains and many duplicates
+        return [(0.0, False), (1.0, False), (1.0, True), (2.0, True)]
     if name == "S6":
         return [(0.0, 0.0, True), (0.0, 1.0, True), (1.0, 0.0, True), (1.0, 1.0, True), (2.0, 0.0, True), (0.0, 2.0, True)]
     if name == "V5x2":
@@ -40,9 +44,12 @@ _sel = []
 
 
 def selector():
+    """One selector object per process; which class it is alternates between processes (the sorter is inherited by all)."""
     if not _sel:
-        from artap.operators import DummySelector
-        _sel.append(DummySelector([]))
+        import os
+        from artap.operators import DummySelector, TournamentSelector, CopySelector
+        cls = (DummySelector, TournamentSelector, CopySelector)[os.getpid() % 3]
+        _sel.append(cls([]))
     return _sel[0]
 
 
@@ -156,6 +163,13 @@ def run(tier, seed):
     for n in (1, 2, 3, 4):
         add("B3", n, 0)
     add("B3", 5, 1)
+    add("Q4", 6, 1)
+    add("Q4", 7, 2)
+    add("L3F", 7, 2)
+    if tier == "thorough":
+        add("L3F", 8, 2)
+        add("Q4", 8, 2)
+        add("L3F", 9, 2)
     for a in alphabet("V3x2F"):
         shards.append(("perm", "V3x2F", 3, (a,)))
     for a in alphabet("S6"):
